@@ -38,6 +38,7 @@ func init() {
 			{ID: "C01.9", Doc: "the unrecovered reply goroutine cannot be crashed through the encoder: krpc Marshal* never construct an error of their own (shared with C15.6)", Floor: 10, Run: c15r6},
 			{ID: "C01.10", Doc: "a fresh address gets its answer: the received source address is never rewritten in place (shared with C08.8)", Floor: 1, Run: c08r8},
 			{ID: "C01.11", Doc: "no send on a closed channel: the announce's peers channel is closed only after the traversal reported Stopped, i.e. after every delivering query has returned (shared with C16.3)", Floor: 8, Run: c16r3},
+			{ID: "C01.12", Doc: "the node cannot be silenced through the handler: every path of a query ends in exactly one datagram unless passive, vetoed or badly tokened (shared with C08.3)", Floor: 8, Run: c08r3},
 			{ID: "C01.8", Doc: "the table's self-check panics are unreachable from wire data: room in the bucket before table.addNode; id ≠ rootID before bucketIndex", Floor: 5, Run: func(w *World, rr *RuleRun) { w.checkAddNodeRoom(rr); w.checkRootGuards(rr) }},
 		},
 	})
